@@ -20,6 +20,18 @@ CHECKS = {
          "Exploration: each generated UFO is compiled 12 times by the real compileOTF; all supported combinations must reload to the same normal-form drawing per glyph, the same advances (hmtx and, for CFF 1, the charstring's own width) and byte-identical GPOS/GDEF/GSUB; the unsupported combination must raise NotImplementedError.",
          "Trusts fontTools' CFF/CFF2 reader; default rounding only; normal form of DESIGN 4.1 (strict differences counted).",
          "DESIGN.md section 5 C12, 4.1"),
+ "C03": ("runtime monitoring: rule oracle over reloaded glyph order / cmap of generated UFOs, plus a completely enumerated small scope of makeOfficialGlyphOrder",
+         "Exploration with an exhaustively enumerated sub-space: ~1200 random UFOs (hostile names, BMP/supplementary/duplicate code points, stored order or explicit argument with duplicates/unknown names/.notdef anywhere, UVS) through compileTTF/compileOTF -> reload, judged by the order and cmap rules written from the statement; every run also enumerates all 32 name sets x 1555 order lists through the real makeOfficialGlyphOrder (99k calls).",
+         "Trusts fontTools' cmap/maxp readers; ASCII glyph names; '.notdef' carries no code point.",
+         "DESIGN.md section 5 C03"),
+ "C18": ("runtime monitoring: reference oracle over reloaded GDEF classes / ligature carets / GPOS cursive records and lookup flags of generated multi-script UFOs",
+         "Exploration: 3000 generated UFOs (category maps incl. invalid values and non-exported glyphs, caret/vcaret anchors, one-sided and suffixed entry/exit anchors in mixed-direction repertoires with GSUB-reachable alternates, with/without user GDEF blocks) compiled by the real compileTTF; GDEF and CursivePos data read back and compared with the UFO data; script direction by an independent provenance closure.",
+         "Trusts fontTools' GDEF/GPOS readers and unicodedata; direction of script-neutral/mixed glyphs not judged (counted).",
+         "DESIGN.md section 5 C18"),
+ "C20": ("runtime monitoring: reachability oracle over the reloaded GPOS ScriptList -> LangSys -> feature -> lookup -> coverage graph of generated multi-script UFOs",
+         "Exploration: 2400 generated UFOs with kerning and mark/cursive anchors, with and without languagesystem statements; for every language system reaching generated kern/dist, every generated mark/mkmk/curs/abvm/blwm lookup covering a glyph of that script must be reachable too. The known defect (scripts registered only by the kern writer) is listed as a finding; any other unreachable feature is a violation.",
+         "Trusts fontTools' GPOS reader and unicodedata script data; script membership closed over the generated GSUB rules.",
+         "DESIGN.md section 5 C20, section 6"),
 }
 
 NOT_APPLICABLE = [
